@@ -9,6 +9,7 @@ mod leak;
 mod upgrade;
 mod archive;
 mod files;
+mod crash;
 use hcommon::parse_cli;
 
 fn main() {
@@ -23,6 +24,7 @@ fn main() {
         "upgrade" => upgrade::run(&cli),
         "archive" => archive::run(&cli),
         "files" => files::run(&cli),
+        "crash" => crash::run(&cli),
         "sched" => sync::run_sched(&cli),
         d => {
             eprintln!("unknown domain {d}");
